@@ -197,3 +197,103 @@ class A2_(Arg):
 CONTRACTS.append(Contract("ofxtools.models.i18n:Origcurrency.curtype", args=[A2_("cls"), A2_("which")], call=cur_native,
                           ensures=[("full-path-value-on-real-instances", "result == []")], cases=cur_native_cases, native_only=True,
                           notes="every model class using the Origcurrency mixin x {CURRENCY, ORIGCURRENCY, neither}: real instances", props=["C16"]))
+
+
+# =============================================================================== securities (SECLISTMSGSRSV1 / OFX)
+class SecMsgsArg(Arg):
+    """SECLISTMSGSRSV1 with three members: SECLIST (2 securities), a non-SECLIST member, SECLIST (1 security)"""
+    name = "msgs"
+
+    def make(self, it):
+        def sec(label):
+            return SObj(m.STOCKINFO, {"__items__": []}, fresh=False, label=label)
+        l1 = SObj(m.SECLIST, {"__items__": [sec("s1"), sec("s2")]}, fresh=False, label="seclist1")
+        other = SObj(m.SECLISTTRNRS, {"__items__": []}, fresh=False, label="trnrs")
+        l2 = SObj(m.SECLIST, {"__items__": [sec("s3")]}, fresh=False, label="seclist2")
+        return SObj(m.SECLISTMSGSRSV1, {"__items__": [l1, other, l2]}, fresh=False, label="msgs"), []
+
+
+CONTRACTS.append(
+    Contract("ofxtools.models:SECLISTMSGSRSV1.securities", args=[SecMsgsArg()], call=prop("securities"),
+             ensures=[("all-securities-of-all-lists-in-order", "len(result) == 3 and result[0] is msgs[0][0] and result[1] is msgs[0][1] and result[2] is msgs[2][0]"),
+                      ("a-new-list", "result is not msgs[0] and result is not msgs[2]")],
+             notes="two security lists around another member: the members of both, in order, in a list of their own - reading the shortcut writes nothing in the model (frame)",
+             props=["C16", "C17"], symbolic_only=True))
+
+
+# =============================================================================== every shortcut, on real instances: pure and repeatable
+def shortcut_names(C):
+    out = []
+    for k in C.__mro__:
+        for n, v in vars(k).items():
+            if isinstance(v, property) and not n.startswith("_") and n not in out and k.__module__.startswith("ofxtools.models"):
+                out.append(n)
+    return out
+
+
+def shortcut_cases(tier):
+    out = []
+    for n in sorted(dir(m)):
+        C = getattr(m, n)
+        if isinstance(C, type) and issubclass(C, m.base.Aggregate if hasattr(m, "base") else object) and n.isupper() and shortcut_names(C):
+            out.append([n])
+    return out
+
+
+def shortcut_purity(it, fn, a):
+    import random, copy
+    import xml.etree.ElementTree as ET
+    from xengine import aggx
+    from ofxtools.models.base import Aggregate
+    cname = a[0]
+    C = getattr(m, cname)
+    e = aggx.env()
+    b = aggx.Builder(e, 0)
+    rng = random.Random(cname)
+    problems = []
+    lists = [nm for nm, t in C.spec.items() if aggx.is_list(aggx.kind(e, t))]
+    singles = [nm for nm, t in C.spec.items() if aggx.kind(e, t) in ("element", "subaggregate")]
+    tried = 0
+    for extra, mem in [((), ()), (tuple(singles[:3]), tuple(lists[:1]) * 2), (tuple(singles), tuple(lists) + tuple(lists))]:
+        try:
+            x = b.witness(C, extra, mem)
+        except Exception:
+            continue
+        tried += 1
+
+        def shape(o, depth=0):
+            # structure of the model: class, list members (recursively), declared children - not the instance
+            # dictionaries (the statement shortcuts staple TRNUID/CLTCOOKIE onto the statements they return: that is
+            # their documented job, C16)
+            if isinstance(o, Aggregate) and depth < 8:
+                return (type(o).__name__, [shape(c, depth + 1) for c in o], ET.tostring(o.to_etree()))
+            return repr(o)
+        for nm in shortcut_names(C):
+            before = shape(x)
+            try:
+                r1 = getattr(x, nm)
+                r2 = getattr(x, nm)
+            except Exception as ex:
+                continue
+            after = shape(x)
+            if before != after:
+                problems.append(f"{cname}.{nm}: reading the shortcut changed the model")
+            if isinstance(r1, (str, int, float, bool, type(None))) or hasattr(r1, "keys"):
+                s1, s2 = r1, r2            # values and (class-level) mappings: equal
+            else:
+                s1 = [id(v) for v in r1] if isinstance(r1, list) else id(r1)
+                s2 = [id(v) for v in r2] if isinstance(r2, list) else id(r2)
+            if s1 != s2:
+                problems.append(f"{cname}.{nm}: two reads in a row return different objects ({len(r1) if isinstance(r1, list) else r1!r} then {len(r2) if isinstance(r2, list) else r2!r})")
+    return problems
+
+
+class A3_(Arg):
+    def __init__(self, name):
+        self.name = name
+
+
+CONTRACTS.append(Contract("ofxtools.models:OFX.statements", args=[A3_("cls")], call=shortcut_purity,
+                          ensures=[("shortcuts-are-pure-and-repeatable", "result == []")], cases=shortcut_cases, native_only=True, shards=4,
+                          notes="every property defined by a model class (all shortcut accessors), on up to three real instances of the class (minimal, some, all optional children and list members twice): two reads return the same objects and the model - classes, list members, written tree - is unchanged",
+                          props=["C16", "C17"]))
